@@ -397,7 +397,45 @@ def rule_python_messages(ctx):
     ctx.covered('R07.9', 'Python save_to_file: every call of a C save function is followed by process_messages on its path', n, floor=4, samples=samples[:4])
 
 
+def _fit_test(op, lhs, rhs):
+    """classification of a comparison that involves a file size (st_size): a region of `len` bytes at `pos` lies inside a
+    file of S bytes iff pos + len <= S. Returns 'strict' for the off-by-one forms `pos+len < S` / `S > pos+len` used as an
+    acceptance test, else None."""
+    L, R = lhs.replace(' ', ''), rhs.replace(' ', '')
+    if 'st_size' in R and 'st_size' not in L and '+' in L and op == '<':
+        return 'strict'
+    if 'st_size' in L and 'st_size' not in R and '+' in R and op == '>':
+        return 'strict'
+    return None
+
+
+def rule_file_bounds(ctx):
+    """R07.11: recovery code that walks the snapshot chain of an archive with absolute positions may bound them by the file
+    size. A snapshot whose trailer ends exactly at the end of the file is complete (that is the normal case after a crash
+    during the next append), so the acceptance test is `position + length <= size`; the strict form rejects the last intact
+    snapshot and the next append overwrites it. The classifier is exercised on a built-in positive example on every run
+    (the unchanged tree has no such test)."""
+    anchor(_fit_test('<', '(pos_tail+size_tail)', 'buffer.st_size') == 'strict' and _fit_test('<=', '(pos_tail+size_tail)', 'buffer.st_size') is None, 'positive control of the file-bound classifier')
+    n = 1
+    for cfile in ('simulationarchive.c', 'input.c', 'output.c'):
+        tu = cfront.load_tu(cfile)
+        for fname in sorted(tu.funcs):
+            fn = tu.func(fname)
+            if cfront.body(fn) is None:
+                continue
+            for e in walk(cfront.body(fn)):
+                if e.get('kind') == 'BinaryOperator' and e.get('opcode') in ('<', '>', '<=', '>='):
+                    a, b = render(e['inner'][0]), render(e['inner'][1])
+                    if 'st_size' in a or 'st_size' in b:
+                        n += 1
+                        if _fit_test(e['opcode'], a, b) == 'strict':
+                            ctx.report('R07.11', '%s:filebound' % fname, 'src/%s:%s %s' % (cfile, line_of(e), fname),
+                                       'the test %s accepts a region only if it ends strictly before the end of the file: a snapshot whose trailer ends exactly at EOF - the last intact one after an interrupted append - is rejected, and the next append overwrites it' % render(e))
+    ctx.covered('R07.11', 'comparisons of position + length with the file size are non-strict (built-in positive control)', n, floor=1)
+
+
 def run(ctx):
+    rule_file_bounds(ctx)
     rule_python_messages(ctx)
     from . import alloczero
     alloczero.rule_zeroed_records(ctx, 'R07.10')
